@@ -52,10 +52,13 @@ Cl_Raoult == (E.ev = "GD" /\ O.raoult /\ E.model = "NRTL") =>
 Cl_PartialPressure == (E.ev = "PP") =>
                   /\ AX!PartialPressure(E.p_x[1], E.x, E.g[1], E.psat[1])
                   /\ AX!PartialPressure(E.p_x[2], E.x2, E.g[2], E.psat[2])
-\* the mole fraction x was computed by the harness with the specification's formula; one ulp of x moves p_i by p_i ulp / x_i
-CondX(pp, xi) == FMul(pp, FAdd(Lit("1.0"), FDiv(Lit("1e-3"), FMax(xi, Lit("1e-300")))))
+\* the mole fraction x was computed by the harness with the specification's formula; one ulp of x moves x_i by ulp / x_i and
+\* gamma_i by about |ln gamma_i| ulp / min(x, 1-x) (extreme UNIQUAC parameters give ln gamma of several hundred)
+CondX(pp, gi) == LET xm == FMax(FMin(E.x, E.x2), Lit("1e-300"))
+                     lg == IF FLt(Lit("0.0"), gi) /\ FIsFinite(gi) THEN FAbs(FLog(gi)) ELSE Lit("0.0")
+                 IN FMul(pp, FAdd(Lit("1.0"), FDiv(FMul(Lit("1e-3"), FAdd(Lit("1.0"), lg)), xm)))
 Cl_BasisIndependent == (E.ev = "PP" /\ FIsFinite(E.p_x[1]) /\ FIsFinite(E.p_x[2])) =>
-                          EqX(E.p_w[1], E.p_x[1], CondX(E.p_x[1], E.x)) /\ EqX(E.p_w[2], E.p_x[2], CondX(E.p_x[2], E.x2))
+                          EqX(E.p_w[1], E.p_x[1], CondX(E.p_x[1], E.g[1])) /\ EqX(E.p_w[2], E.p_x[2], CondX(E.p_x[2], E.g[2]))
 
 Ref_Gamma == (E.ev = "GD") => (MatchesVariant(E.model) \/ D3_Applies)
 =============================================================================
